@@ -34,6 +34,7 @@
 #include <fcntl.h>
 #include <limits.h>
 #include <pthread.h>
+#include <signal.h>
 #include <stdarg.h>
 #include <stdint.h>
 #include <stdio.h>
@@ -109,11 +110,11 @@ static struct fdinfo g_fds[MAXFD];
 
 enum kind {
   K_OPENR, K_OPENW, K_OPENDIR, K_READ, K_WRITE, K_READDIR, K_SHORT_READ, K_SHORT_WRITE,
-  K_EINTR_READ, K_EINTR_WRITE, K_EINTR_OPEN, K_CLOCKJUMP, K_CRASH, K_RENAME, K_STATSIZE, K_TTY, K_DEVNO, K_FLOCK, K_NKINDS
+  K_EINTR_READ, K_EINTR_WRITE, K_EINTR_OPEN, K_CLOCKJUMP, K_CRASH, K_RENAME, K_STATSIZE, K_TTY, K_DEVNO, K_FLOCK, K_SIGNAL, K_GETCWD, K_NKINDS
 };
 static const char *kind_names[] = {"openr", "openw", "opendir", "read", "write", "readdir",
                                    "short_read", "short_write", "eintr_read", "eintr_write",
-                                   "eintr_open", "clockjump", "crash", "rename", "statsize", "tty", "devno", "flock"};
+                                   "eintr_open", "clockjump", "crash", "rename", "statsize", "tty", "devno", "flock", "signal", "getcwd"};
 struct rule {
   int kind;
   char sel[RELMAX];
@@ -155,7 +156,7 @@ static const struct errname errnames[] = {
   {"ENOSPC", ENOSPC}, {"EPIPE", EPIPE}, {"EINTR", EINTR}, {"EISDIR", EISDIR}, {"ENOTDIR", ENOTDIR},
   {"EPERM", EPERM}, {"EDQUOT", EDQUOT}, {"EFBIG", EFBIG}, {"ENFILE", ENFILE}, {"ENOMEM", ENOMEM},
   {"EBADF", EBADF}, {"ELOOP", ELOOP}, {"ENAMETOOLONG", ENAMETOOLONG}, {"EAGAIN", EAGAIN},
-  {"ETXTBSY", ETXTBSY}, {"EBUSY", EBUSY}, {"EXDEV", EXDEV}, {"EWOULDBLOCK", EWOULDBLOCK}, {"ENOLCK", ENOLCK}, {0, 0}};
+  {"ETXTBSY", ETXTBSY}, {"EBUSY", EBUSY}, {"EXDEV", EXDEV}, {"EWOULDBLOCK", EWOULDBLOCK}, {"ENOLCK", ENOLCK}, {"ESTALE", ESTALE}, {0, 0}};
 static int errno_from_name(const char *s) {
   for (int i = 0; errnames[i].n; i++) if (!strcmp(errnames[i].n, s)) return errnames[i].v;
   return atoi(s);
@@ -208,7 +209,7 @@ static void parse_plan(const char *plan) {
     if (when[0] == '+') { r->by_offset = 1; r->when = atol(when + 1); }
     else r->when = atol(when);
     switch (r->kind) {
-      case K_SHORT_READ: case K_SHORT_WRITE: case K_CLOCKJUMP: case K_CRASH: case K_STATSIZE: case K_TTY: case K_DEVNO:
+      case K_SHORT_READ: case K_SHORT_WRITE: case K_CLOCKJUMP: case K_CRASH: case K_STATSIZE: case K_TTY: case K_DEVNO: case K_SIGNAL:
         r->arg = atol(arg); break;
       case K_EINTR_READ: case K_EINTR_WRITE: case K_EINTR_OPEN:
         r->arg = EINTR; break;
@@ -352,6 +353,16 @@ static void event_begin(const char *sym, const char *target) {
       trace_line("crash", target, 0, 0, 0, i);
       (void)sym;
       _exit(137);
+    }
+    /* `signal:**:n:<signo>`: a catchable signal (SIGINT 2, SIGTERM 15, SIGHUP 1) is delivered to
+     * the process before its n-th call - Ctrl-C or a supervisor in the middle of a batch. With
+     * the default disposition the process dies there; if it handles the signal it goes on. */
+    if (r->kind == K_SIGNAL && !r->fired && (long)g_seq == r->when) {
+      r->fired = 1;
+      trace_line("signal", target, r->arg, 0, 0, i);
+      pthread_mutex_unlock(&g_lock);
+      raise((int)r->arg);
+      pthread_mutex_lock(&g_lock);
     }
   }
 }
@@ -834,6 +845,27 @@ int flock(int fd, int op) {
   return real_flock ? real_flock(fd, op) : -1;
 }
 
+/* ------------------------------------------------------------------ current directory
+ * `getcwd:*:1:ENOENT`: the current directory has been deleted (or is unreadable): getcwd() fails.
+ * Relative paths still resolve; only a program that asks where it is notices. */
+char *getcwd(char *buf, size_t size) {
+  vsim_init();
+  if (g_world) {
+    for (int i = 0; i < g_nrules; i++) {
+      struct rule *ru = &g_rules[i];
+      if (ru->kind != K_GETCWD) continue;
+      pthread_mutex_lock(&g_lock);
+      event_begin("getcwd", "-");
+      ru->fired = 1;
+      trace_line("getcwd", "-", 0, -1, (int)ru->arg, i);
+      pthread_mutex_unlock(&g_lock);
+      errno = (int)ru->arg;
+      return NULL;
+    }
+  }
+  return real_getcwd(buf, size);
+}
+
 /* ------------------------------------------------------------------ terminal-ness
  * `tty:@1:0:1` / `tty:@2:0:1`: isatty() of that descriptor answers 1 (the output still goes to the
  * harness's file). What a tool prints as formatted text, writes to files and returns as exit
@@ -988,9 +1020,15 @@ int clock_gettime(clockid_t clk, struct timespec *ts) {
     if ((j & 7) == 0) g_clock_jump += (int64_t)(1 + (j >> 8) % 120) * 1000000000LL;
   }
   uint64_t s = g_seed;
-  uint64_t base_s = 1000000ULL + splitmix(&s) % 100000ULL;
+  /* the simulated 'now' lies in 2026..2029, so that a large jump crosses 2038-01-19 */
+  uint64_t base_s = 1790000000ULL + splitmix(&s) % 100000000ULL;
   uint64_t delta = 1000ULL + splitmix(&s) % 5000000ULL; /* ns per clock read */
-  uint64_t ns = g_clock_calls * delta + (uint64_t)g_clock_jump;
+  /* a jump backwards (an NTP step, a user setting the clock) only ever shows on the wall clock */
+  int64_t jump = g_clock_jump;
+  if (jump < 0 && clk != CLOCK_REALTIME && clk != CLOCK_REALTIME_COARSE) jump = 0;
+  int64_t total = (int64_t)(g_clock_calls * delta) + jump;
+  if (total < 0) total = 0;
+  uint64_t ns = (uint64_t)total;
   ts->tv_sec = (time_t)(base_s + ns / 1000000000ULL);
   ts->tv_nsec = (long)(ns % 1000000000ULL);
   if (g_world) trace_line("clock", "-", clk, 0, 0, rule);
